@@ -64,7 +64,7 @@ class _ParseSpec(Spec):
                     out.append(self.job(s))
         # G1-Sigma: all documents of length n over small Markdown-significant alphabets
         if tier == "quick":
-            for name, n, split in (("emphasis", 5, 2), ("links", 4, 1), ("containers", 4, 1)):
+            for name, n, split in (("emphasis", 6, 2), ("links", 5, 1), ("containers", 5, 1)):
                 for s in docs.sigma_shards(name, n, split):
                     out.append(self.job(s, budget=200.0))
         else:
@@ -86,7 +86,7 @@ class _ParseSpec(Spec):
         if tier == "quick":
             return {"G1": "all documents of length 0..2 (every cell any Unicode scalar value but NUL/CR)",
                     "G2": "core skeleton pool (skeletons.txt), one symbolic cell replacing each position of the 9 mini skeletons and every position of the other skeletons up to 16 characters, every second position of the longer ones, every fourth of the multi-line-inline ones",
-                    "G1-Sigma": "all documents of length 5 over {*,_,a,space,`}, of length 4 over {[,],(,),a,!} and over {>,-,space,newline,a,1,.}",
+                    "G1-Sigma": "all documents of length 6 over {*,_,a,space,`}, of length 5 over {[,],(,),a,!} and over {>,-,space,newline,a,1,.}",
                     "per_path_timeout_s": self.per_path_timeout}
         if self.prop in ("C04", "C05"):
             return {"G1": "all documents of length 0..3", "G2": "core skeleton pool, one symbolic cell replacing each position and one inserted at every second position",
